@@ -29,6 +29,8 @@ type Prog struct {
 	Funcs map[string]*FuncInfo
 	// inferred ghost modification sets (transitive), by function key
 	GhostMods map[string]map[string]bool
+	stableHeap   map[string]bool
+	stableFields map[*types.Var]*TypeContract
 	RepoDir   string
 }
 
@@ -115,6 +117,7 @@ func LoadProg(repo string, patterns []string, specFiles []string) (*Prog, error)
 		}
 	}
 	p.inferGhostMods()
+	p.computeStable()
 	return p, nil
 }
 
@@ -184,6 +187,11 @@ func (p *Prog) inferGhostMods() {
 			if call, ok := n.(*ast.CallExpr); ok {
 				if fn := staticCallee(info, call); fn != nil {
 					callees[k] = append(callees[k], funcKey(fn))
+				}
+				if id, ok := ast.Unparen(call.Fun).(*ast.Ident); ok && id.Name == "close" {
+					if _, isB := info.Uses[id].(*types.Builtin); isB {
+						p.GhostMods[k]["chanClosed"] = true
+					}
 				}
 			}
 			return true
